@@ -24,6 +24,8 @@ fn table() -> Vec<Prop> {
         Prop { id: "C08", level: "exploration", run: props::c08::run, replay: props::c08::replay },
         Prop { id: "C09", level: "exploration", run: props::c09::run, replay: props::c09::replay },
         Prop { id: "C10", level: "exploration", run: props::c10::run, replay: props::c10::replay },
+        Prop { id: "C11", level: "exploration", run: props::c11::run, replay: props::c11::replay },
+        Prop { id: "C12", level: "fault_enumeration", run: props::c12::run, replay: props::c12::replay },
         Prop { id: "C13", level: "exploration", run: props::c13::run, replay: props::c13::replay },
         Prop { id: "C14", level: "exploration", run: props::c14::run, replay: props::c14::replay },
         Prop { id: "C15", level: "exploration", run: props::c15::run, replay: props::c15::replay },
@@ -67,6 +69,7 @@ fn main() {
             }
             std::process::exit(run.finish());
         }
+        Some("eval-server") => dltverif::evalserver::serve(),
         Some("replay") => {
             let (Some(id), Some(file)) = (args.get(2), args.get(3)) else { usage() };
             let Some(p) = table().into_iter().find(|p| p.id == id) else {
